@@ -12,7 +12,7 @@ import (
 func init() { register("C14", true, runC14) }
 
 func runC14(c *Check) {
-	c.Explanation = "Decides only structural clauses of C14 (which group of a pattern means what, and all value arithmetic, are out of static reach): for every legacy text pattern, the capture groups used after a match are within the arity of the pattern and every length test on a match equals groups+1, so a group added to or removed from a pattern cannot silently shift the fields that are read (R1); every legacy parser adds samples only by appending a new sample to the end of the list, so samples appear in input order (R2); every text parser's successful return passes through the trailing memory-map section parser, the binary CPU parser through ParseMemoryMap, the Java parsers through parseJavaLocations, and those always finish with location, function and mapping renumbering (R3); the contention count's multiplication by the period does not depend on the cycle frequency (R4); no integer quotient is converted to floating point in the legacy scaling code (R5); the binary CPU parser removes a sample's second frame only after comparing its address with the shared one (R6); every string attribute that adjacent() lets differ by emptiness is carried over when ranges are merged (R7). Also: duplicated leaf removed only under an equality of the two addresses (R8); heap header alloc columns recognised when either total differs (R9); the main-mapping correction is applied to the current first mapping (R10). Not decided: values, scaling, address adjustment, label contents, mapping heuristics."
+	c.Explanation = "Decides only structural clauses of C14 (which group of a pattern means what, and all value arithmetic, are out of static reach): for every legacy text pattern, the capture groups used after a match are within the arity of the pattern and every length test on a match equals groups+1, so a group added to or removed from a pattern cannot silently shift the fields that are read (R1); every legacy parser adds samples only by appending a new sample to the end of the list, so samples appear in input order (R2); every text parser's successful return passes through the trailing memory-map section parser, the binary CPU parser through ParseMemoryMap, the Java parsers through parseJavaLocations, and those always finish with location, function and mapping renumbering (R3); the contention count's multiplication by the period does not depend on the cycle frequency (R4); no integer quotient is converted to floating point in the legacy scaling code (R5); the binary CPU parser removes a sample's second frame only after comparing its address with the shared one (R6); every string attribute that adjacent() lets differ by emptiness is carried over when ranges are merged (R7). Also: duplicated leaf removed only under an equality of the two addresses (R8); heap header alloc columns recognised when either total differs (R9); the main-mapping correction is applied to the current first mapping (R10). Round-I additions: a Location entered in an address-keyed table stores the key as its address; with rate 1 (or below) scaleHeapSample returns the counts unscaled (branch evaluation); the $attr replacer of the memory map accumulates definitions. Not decided: values, scaling, address adjustment, label contents, mapping heuristics."
 	p := c.P
 	g := newGuardEngine(p)
 	legacy := func(f *ssa.Function) bool {
